@@ -42,8 +42,8 @@ impl Property for C14 {
     }
     fn cases(&self, tier: Tier) -> u64 {
         match tier {
-            Tier::Quick => 400000,
-            Tier::Thorough => 5000000,
+            Tier::Quick => 2_500_000,
+            Tier::Thorough => 30_000_000,
         }
     }
     fn decode(&mut self, tape: &TapeVal) -> Case {
